@@ -1,8 +1,15 @@
 """C15 — configuration sources merge in loader order; adding a source drops nothing.
 
-Generates loader sets (raw / file / args, 1-4 loaders plus the ArgsLoader(os.Args) of configure.Default()),
-key trees with overlapping and disjoint keys, option sequences (SetConfig / AddConfigLoader / SetConfigLoader in
-every order), runs the REAL App on them (harness/cmd/c15) and evaluates model and oracle in Coq (Corr/Check_C15.v)."""
+Generates loader sets (raw / file / args / user-written loaders of every ordering class, 1-4 loaders plus the
+ArgsLoader(os.Args) of configure.Default()), key trees with overlapping and disjoint keys, groups of loaders of EQUAL
+class and Order (several files, several user loaders with the same Order(), files next to priority-0 user loaders) that
+give one key different values, option sequences (SetConfig / AddConfigLoader / SetConfigLoader in every order), runs the
+REAL App on them (harness/cmd/c15) and evaluates model and oracle in Coq (Corr/Check_C15.v).
+
+A second stream drives ONE Configure through a history: SetLoaders / AddLoaders / Initialize / reads, several
+Initializes with loaders added in between, the last one optionally performed by App.Run (app.SetConfigure(cfg) or the
+App's own Configure); every step is replayed on the model (Model/ConfigMerge.v cstep_run) and the property is
+evaluated on the observations (every Initialize consults the sort of ALL loaders configured so far)."""
 import copy
 import glob
 import json
@@ -15,15 +22,19 @@ MANIFEST = {
     "text": "Rocq theorems over Model/ConfigMerge.v for all document lists, key trees and paths: the effective configuration "
             "is the path-wise deep merge in loader-sequence order (c15_deep_merge), last supplier wins on leaves under shape "
             "compatibility (c15_last_wins, refuted without it: KF-C15b), single suppliers survive, nothing is dropped, the "
-            "sequence is files-first-then-insertion-order via the C12 sorter, source-adding options keep earlier loaders "
+            "sequence is the C12 sorter's (ordered loaders first; equal class and Order in the order they were added: "
+            "c15_sequence_contract / _stable / _builtin), a Configure initialised several times consults the sort of ALL loaders "
+            "configured so far (c15_history, c15_reinitialize), source-adding options keep earlier loaders "
             "(c15_add_monotone; refuted for the unrepaired AddConfigLoader: D-C15a). The model is tied to the code on every run "
-            "by vm_compute against real App.Run starts: App.Get(path) for every path of every document plus a prefix-bound field",
+            "by vm_compute against real App.Run starts and multi-step histories on one Configure: Get(path) for every path of "
+            "every document, the read order of user-written loaders, a prefix-bound field",
     "design_ref": "DESIGN.md 5 C15",
     "note": "trusted: Coq kernel + vm_compute; hand-written model of viper v1.19.0 mergeMaps/searchMap and go-kid/properties "
             "buildMap (third-party, modelled as they behave); Go harness and Python generators; keys are lower-case identifiers "
-            "(viper folds case), values canonicalised (integral floats = ints); order among equal-Order file loaders is left open",
-    "technique": "Rocq proof (nested induction over config trees, induction over document lists, Permutation via C12) + vm_compute "
-                 "correspondence against the Go implementation",
+            "(viper folds case), values canonicalised (integral floats = ints); sort.Slice on at most 12 elements is a stable "
+            "insertion sort (cases stay below), so loaders of equal class and Order are taken in the order they were added",
+    "technique": "Rocq proof (nested induction over config trees, induction over document lists and over histories, stable "
+                 "insertion sort via C12) + vm_compute correspondence against the Go implementation",
 }
 
 TOP = ["app", "db", "srv", "log", "feat", "cache"]
@@ -225,8 +236,15 @@ def gen_args(rng, schema, profile):
 # ------------------------------------------------------------------------------------------------
 # cases
 
+USER_ORDS = [0, 0, 0, 1, 1, -1, 5, 5, -7, 2 ** 31]
+
+
 def gen_loader(rng, schema, lid, kind, conflict, argprofile="ok"):
     L = {"lid": lid, "kind": kind, "doc": None, "missing": False, "args": [], "style": rng.choice(["block", "flow"])}
+    if kind == "user":
+        # a loader type of the user's: priority-ordered / ordered / unordered, small Order pool (ties; 0 ties with files)
+        L["cls"] = rng.choice("PPOOU")
+        L["ord"] = 0 if L["cls"] == "U" else rng.choice(USER_ORDS)
     if kind == "args":
         L["args"] = gen_args(rng, schema, argprofile)
         return L
@@ -249,7 +267,7 @@ def gen_case(rng, cid, profile):
 
     def newl(kind=None, argprofile="ok"):
         lid[0] += 1
-        kind = kind or rng.choice(["raw", "raw", "file", "file", "args"])
+        kind = kind or rng.choice(["raw", "raw", "file", "file", "args", "user", "user"])
         return gen_loader(rng, schema, lid[0], kind, conflict, argprofile)
 
     loaders = [newl() for _ in range(nl)]
@@ -264,6 +282,8 @@ def gen_case(rng, cid, profile):
     rng.shuffle(loaders)                               # every insertion order
     if profile in ("plain", "conflict") and rng.random() < 0.30:
         add_repeat(rng, loaders, lid)
+    if profile == "plain" and rng.random() < 0.5:
+        add_equal_group(rng, loaders, lid, schema)
     ops = []
     i = 0
     first = True
@@ -373,6 +393,53 @@ def add_repeat(rng, loaders, lid):
         loaders[j + 1:j + 1] = ([ov] if ov else []) + [D2]
 
 
+def distinct_value(rng, lid):
+    return rng.choice([["s", "eq%d" % lid], ["i", 1000 + lid], ["f", "%d.5" % lid]])
+
+
+def add_equal_group(rng, loaders, lid, schema):
+    """2-3 loaders that the sorter cannot separate (same class, same Order) and that give the same leaf paths DIFFERENT
+    values, put at arbitrary positions of the insertion order: several files; user loaders of one class with one Order;
+    files together with priority-0 user loaders. The one added last must win."""
+    doc = revalue(rng, schema, 0.9, 0.0)
+    leaves = [p for p, a in leaf_paths(doc) if p and a[0] != "l"]
+    rng.shuffle(leaves)
+    shared = leaves[:rng.choice([1, 1, 2])] or [["eqk"]]
+    # no shared path may be a prefix of another one
+    shared = [p for p in shared if not any(q != p and q[:len(p)] == p for q in shared)]
+    form = rng.choice(["files", "files", "userP", "userO", "file+userP0", "userP", "userO"])
+    k = rng.choice([2, 2, 3])
+    o = rng.choice(USER_ORDS)
+    for i in range(k):
+        lid[0] += 1
+        if form == "files" or (form == "file+userP0" and i % 2 == 0):
+            L = {"lid": lid[0], "kind": "file"}
+        elif form == "file+userP0":
+            L = {"lid": lid[0], "kind": "user", "cls": "P", "ord": 0}
+        else:
+            L = {"lid": lid[0], "kind": "user", "cls": form[-1], "ord": o}
+        pairs = [(p, distinct_value(rng, lid[0])) for p in shared if rng.random() < 0.9] or \
+                [(shared[0], distinct_value(rng, lid[0]))]
+        if rng.random() < 0.4:
+            pairs.append((["own%d" % lid[0]], gen_atom(rng, False)))
+        L.update({"doc": nest(pairs), "missing": False, "args": [], "style": rng.choice(["block", "flow"]), "eqgrp": form})
+        loaders.insert(rng.randint(0, len(loaders)), L)
+
+
+def lclass_of(L):
+    """(rank, Order) as SortOrderedComponents sees the loader"""
+    if L["kind"] == "file":
+        return (0, 0)
+    if L["kind"] == "user" and L["cls"] != "U":
+        return (0 if L["cls"] == "P" else 1, L["ord"])
+    return (2, 0)
+
+
+def py_sequence(fin):
+    """the expected loader sequence (statistics only; the model is Coq's)"""
+    return sorted(fin, key=lambda L: lclass_of(L))         # sorted() is stable
+
+
 def loader_doc(L):
     """the document a loader is expected to deliver (args: nested pairs), or None"""
     if L["kind"] == "args":
@@ -453,6 +520,9 @@ def go_case(ctx, case):
             return {"kind": "raw", "text": doc_text(L["doc"], L["style"])}
         if L["kind"] == "args":
             return {"kind": "args", "args": ["prog", "-x"] + [arg_text(p, a) for p, a in L["args"]]}
+        if L["kind"] == "user":
+            return {"kind": "user", "cls": L["cls"], "ord": L["ord"], "lid": L["lid"],
+                    "text": doc_text(L["doc"], L["style"])}
         f = os.path.join(fdir, "c%d_l%d.yaml" % (case["id"], L.get("fileof", L["lid"])))
         if L["missing"]:
             f += ".missing"
@@ -512,6 +582,9 @@ def coq_loader(L):
         k = "LArgs %s" % coq_args(L["args"])
     elif L["kind"] == "raw":
         k = "LRaw %s" % ("None" if L["doc"] is None else "(Some %s)" % coq_doc(L["doc"]))
+    elif L["kind"] == "user":
+        cls = {"P": "(Prio %s)" % vlib.coq_z(L["ord"]), "O": "(Ord %s)" % vlib.coq_z(L["ord"]), "U": "Unord"}[L["cls"]]
+        k = "LUser %s %s" % (cls, "None" if L["doc"] is None else "(Some %s)" % coq_doc(L["doc"]))
     elif L["missing"]:
         k = "LFile None"
     else:
@@ -524,6 +597,10 @@ def coq_op(o):
         return "OSetConfig (%s)" % coq_loader(o["loaders"][0])
     ctor = "OSetConfigLoader" if o["op"] == "setloaders" else "OAddConfigLoader"
     return "%s %s" % (ctor, vlib.coq_list(coq_loader(L) for L in o["loaders"]))
+
+
+def coq_nats(xs):
+    return vlib.coq_list(str(x) for x in (xs or [])) + "%nat"
 
 
 def obs_tree(j):
@@ -574,28 +651,224 @@ def coq_case(cid, case, obs):
     bound = "None"
     if case["prefix"] and obs["out"] == "ok":
         bound = "(Some (%s, %s))" % (cs(case["prefix"]), coq_opt_tree(obs_tree(obs["bound"])))
-    return "mkCase %d %s %s %s %s %s" % (cid, coq_args(case["osargs"]), vlib.coq_list(coq_op(o) for o in case["ops"]),
-                                         out, vlib.coq_list(gets), bound)
+    return "mkCase %d %s %s %s %s %s %s" % (cid, coq_args(case["osargs"]), vlib.coq_list(coq_op(o) for o in case["ops"]),
+                                            out, vlib.coq_list(gets), bound, coq_nats(obs.get("log")))
+
+
+# ------------------------------------------------------------------------------------------------
+# histories: one Configure, several steps
+
+def gen_hist(rng, cid):
+    """start (new | default | appdefault), then phases of SetLoaders/AddLoaders/SetConfig steps each closed by an
+    Initialize and (mostly) a read of every path; the last phase may be performed by App.Run"""
+    r = rng.random()
+    profile = "plain" if r < 0.86 else "conflict" if r < 0.92 else "argpanic" if r < 0.95 else "missing"
+    schema = gen_schema(rng)
+    conflict = 0.25 if profile == "conflict" else 0.0
+    lid = [0]
+
+    def newl(kinds):
+        lid[0] += 1
+        return gen_loader(rng, schema, lid[0], rng.choice(kinds), conflict)
+
+    start = rng.choice(["new", "new", "new", "default", "default", "appdefault"])
+    osargs = []
+    if start != "new" and rng.random() < 0.5:
+        osargs = gen_args(rng, schema, rng.choice(["ok", "ok", "dup", "overwrite"]))
+    nph = rng.choice([2, 2, 2, 3, 3, 1])
+    via_app = start == "appdefault" or rng.random() < 0.45
+    steps = []
+    everything = ["raw", "raw", "file", "file", "args", "user", "user", "user"]
+    ordered_first = ["file", "file", "user", "user", "user", "raw"]
+    for ph in range(nph):
+        app = via_app and ph == nph - 1
+        # the first phase leans to unordered loaders (a bootstrap document), later ones to ordered loaders
+        kinds = everything if ph == 0 else ordered_first
+        n = rng.choice([0, 1, 1, 2, 2, 3]) if ph == 0 else rng.choice([1, 1, 2, 2, 3])
+        ls = [newl(kinds) for _ in range(n)]
+        if ph > 0 and rng.random() < 0.35 and ls:
+            # a tie with something configured earlier: same class and Order, same leaf, another value
+            earlier = [L for st in steps for L in st.get("loaders", []) if lclass_of(L)[0] < 2 and loader_doc(L)]
+            if earlier:
+                E = rng.choice(earlier)
+                lid[0] += 1
+                ov = override_of(rng, loader_doc(E), lid[0], [E["kind"]])
+                if ov:
+                    if E["kind"] == "user":
+                        ov["cls"], ov["ord"] = E["cls"], E["ord"]
+                    ls.insert(rng.randint(0, len(ls)), ov)
+        if profile == "argpanic" and ph == nph - 1:
+            lid[0] += 1
+            ls.append(gen_loader(rng, schema, lid[0], "args", 0.0, "panic"))
+        if profile == "missing" and ph == rng.randrange(nph):
+            lid[0] += 1
+            ls.insert(rng.randint(0, len(ls)),
+                      {"lid": lid[0], "kind": "file", "doc": None, "missing": True, "args": [], "style": "block"})
+        i = 0
+        firstop = True
+        while i < len(ls):
+            L = ls[i]
+            if L["kind"] == "file" and rng.random() < 0.5:
+                steps.append({"op": "setconfig", "loaders": [L], "app": app})
+                i += 1
+            else:
+                k = rng.choice([1, 1, 2, 3])
+                op = "set" if rng.random() < (0.25 if (ph == 0 and firstop) else 0.07) else "add"
+                steps.append({"op": op, "loaders": ls[i:i + k], "app": app})
+                i += k
+            firstop = False
+        steps.append({"op": "init", "loaders": [], "app": app})
+        if rng.random() < 0.8 or ph == nph - 1:
+            steps.append({"op": "get", "loaders": [], "app": app})
+        if ph < nph - 1 and rng.random() < 0.08:
+            steps.append({"op": "init", "loaders": [], "app": False})   # Initialize twice in a row
+    case = {"id": cid, "start": start, "osargs": osargs, "steps": steps, "prefix": "", "profile": profile}
+    finish_hist(rng, case)
+    return case
+
+
+def hist_loaders(case):
+    out = [L for st in case["steps"] for L in st["loaders"]]
+    if case["start"] != "new":
+        out.append({"lid": 0, "kind": "args", "args": case["osargs"], "doc": None, "missing": False})
+    return out
+
+
+def hist_consulted(case):
+    """the loaders some Initialize of the history consults (a SetLoaders may drop loaders before they are ever read)"""
+    cur = [] if case["start"] == "new" else [{"lid": 0, "kind": "args", "args": case["osargs"], "doc": None, "missing": False}]
+    got = []
+    for st in case["steps"]:
+        if st["op"] == "set":
+            cur = list(st["loaders"])
+        elif st["op"] in ("add", "setconfig"):
+            cur = cur + list(st["loaders"])
+        elif st["op"] == "init":
+            got += [L for L in cur if L not in got]
+    return got
+
+
+def finish_hist(rng, case):
+    seen = []
+    for L in hist_loaders(case):
+        d = loader_doc(L)
+        if d:
+            for p in all_paths(d):
+                if p not in seen:
+                    seen.append(p)
+    seen = seen[:48]
+    seen.append(["nope", "missing"])
+    pref = case.get("prefix", "")
+    case["prefix"] = ""
+    steps = case["steps"]
+    # the bound field is compared with the read that follows the App.Run: ... init(app), get
+    app_init = len(steps) >= 2 and steps[-1]["op"] == "get" and steps[-2]["op"] == "init" and steps[-2]["app"]
+    if app_init and not any(L.get("missing") for L in hist_loaders(case)):
+        docs = [d for d in (loader_doc(L) for L in hist_consulted(case)) if d]
+        cands = prefix_candidates(docs)
+        if rng is not None:
+            if cands and rng.random() < 0.5:
+                case["prefix"] = rng.choice(cands)
+        elif pref in cands:
+            case["prefix"] = pref
+    if case["prefix"] and [case["prefix"]] not in seen:
+        seen.append([case["prefix"]])
+    case["paths"] = seen
+
+
+def gen_hists(ctx, n, start_id):
+    return [gen_hist(ctx.rng, start_id + i) for i in range(n)]
+
+
+def go_hist(ctx, case):
+    g = go_case(ctx, {"id": case["id"], "osargs": case["osargs"], "paths": case["paths"], "prefix": case["prefix"],
+                      "child": False, "ops": [{"op": "addloaders" if st["op"] != "setconfig" else "setconfig",
+                                               "loaders": st["loaders"]} for st in case["steps"] if st["loaders"]]})
+    specs = iter(g["ops"])
+    steps = []
+    for st in case["steps"]:
+        o = {"op": st["op"], "app": st["app"]}
+        if st["loaders"]:
+            sp = next(specs)
+            if st["op"] == "setconfig":
+                o["file"] = sp["file"]
+            else:
+                o["loaders"] = sp["loaders"]
+        steps.append(o)
+    return {"id": case["id"], "osargs": g["osargs"], "paths": g["paths"], "prefix": case["prefix"],
+            "start": case["start"], "steps": steps}
+
+
+def coq_hist(cid, case, obs):
+    steps = []
+    souts = obs.get("steps") or []
+    if obs["out"] != "ok" or len(souts) != len(case["steps"]):
+        steps.append("HInit OPanic []")                      # the driver itself failed: never acceptable
+        souts = []
+    last_ok = False
+    for st, so in zip(case["steps"], souts):
+        if st["op"] in ("set", "add", "setconfig"):
+            ctor = "HSet" if st["op"] == "set" else "HAdd"
+            steps.append("%s %s" % (ctor, vlib.coq_list(coq_loader(L) for L in st["loaders"])))
+            if so.get("out") == "panic":
+                steps.append("HInit OPanic []")
+        elif st["op"] == "init":
+            out = {"ok": "OOk", "err": "OErr", "panic": "OPanic"}[so["out"]]
+            steps.append("HInit %s %s" % (out, coq_nats(so.get("log"))))
+            last_ok = so["out"] == "ok"
+        else:
+            if so.get("out") == "panic":
+                steps.append("HGet [(%s, Some (CLeaf (AStr \"?get panicked\")))]" % coq_path(["nope", "missing"]))
+                continue
+            gets = ["(%s, %s)" % (coq_path(p), coq_opt_tree(obs_tree(g))) for p, g in zip(case["paths"], so.get("gets") or [])]
+            steps.append("HGet %s" % vlib.coq_list(gets))
+    bound = "None"
+    if case["prefix"] and last_ok:
+        bound = "(Some (%s, %s))" % (cs(case["prefix"]), coq_opt_tree(obs_tree(obs.get("bound"))))
+    start = "[]" if case["start"] == "new" else "[mkLoader 0 (LArgs %s)]" % coq_args(case["osargs"])
+    return "mkHCase %d %s %s %s" % (cid, start, vlib.coq_list(steps), bound)
+
+
+HHEADER = HEADER + "Notation case := hcase (only parsing).\n"
+HDEFS = {"M": "hmismatches", "V": "hviolations", "KB": "hkf_b", "KC": "hkf_c", "NT": "hcount_nontrivial"}
 
 
 DEFS = {"M": "mismatches", "V": "violations", "KB": "kf_b", "KC": "kf_c", "NT": "count_nontrivial"}
 
 
+def is_hist(c):
+    return "steps" in c
+
+
 def evaluate(ctx, binp, cases, tag):
-    """implementation + Coq. returns (by_id, res) with res = {M,V,KB,KC: [ids], NT: n}"""
-    gin = {"cases": [go_case(ctx, c) for c in cases]}
+    """implementation + Coq. returns (by_id, res) with res = {M,V,KB,KC: [ids], NT: n}; plain cases and histories
+    go through the same driver run and through their own correspondence functions"""
+    gin = {"cases": [go_hist(ctx, c) if is_hist(c) else go_case(ctx, c) for c in cases]}
     rc, res, raw = vlib.run_json(binp, gin, timeout=1800)
     if res is None:
         raise vlib.GoBuildError("./cmd/c15 (run)", raw[-3000:])
     ctx.loader_facts = res.get("facts")
     by_id = {}
-    terms = []
+    terms, hterms = [], []
     for c, o in zip(cases, res["outs"]):
+        everyone = hist_loaders(c) if is_hist(c) else [L for op in c["ops"] for L in op["loaders"]]
         by_id[c["id"]] = {"case": c, "observed": o,
-                          "yaml": {str(L["lid"]): doc_text(L["doc"], L["style"]) for op in c["ops"] for L in op["loaders"]
+                          "yaml": {str(L["lid"]): doc_text(L["doc"], L["style"]) for L in everyone
                                    if L["kind"] != "args"}}
-        terms.append(coq_case(c["id"], c, o))
-    out = vlib.coq_eval_sharded(ctx, "cases_c15_" + tag, HEADER, terms, DEFS, shard=120)
+        if is_hist(c):
+            hterms.append(coq_hist(c["id"], c, o))
+        else:
+            terms.append(coq_case(c["id"], c, o))
+    out = {k: [] for k in DEFS}
+    if terms:
+        o1 = vlib.coq_eval_sharded(ctx, "cases_c15_" + tag, HEADER, terms, DEFS, shard=120)
+        for k in DEFS:
+            out[k] += o1[k]
+    if hterms:
+        o2 = vlib.coq_eval_sharded(ctx, "cases_c15h_" + tag, HHEADER, hterms, HDEFS, shard=100)
+        for k in DEFS:
+            out[k] += o2[k]
+        out["NTH"] = sum(o2["NT"])
     out["NT"] = sum(out["NT"])
     return by_id, out
 
@@ -605,7 +878,11 @@ def evaluate(ctx, binp, cases, tag):
 
 def case_size(c):
     n = len(c["osargs"]) + len(c["paths"]) + (1 if c["prefix"] else 0)
-    for o in c["ops"]:
+    for o in c.get("steps", []):
+        n += 2 + (2 if o["app"] else 0)
+        for L in o["loaders"]:
+            n += 2 + len(L["args"]) + (len(all_paths(L["doc"])) if L["doc"] else 0)
+    for o in c.get("ops", []):
         n += 3
         for L in o["loaders"]:
             n += 2 + len(L["args"]) + (len(all_paths(L["doc"])) if L["doc"] else 0)
@@ -627,7 +904,46 @@ def twins(d, i, j):
             (X["kind"] == "args") == (L["kind"] == "args")]
 
 
+def hist_shrink_candidates(c):
+    out = []
+
+    def variant(f):
+        d = copy.deepcopy(c)
+        f(d)
+        finish_hist(None, d)
+        out.append(d)
+
+    def direct(d):
+        for st in d["steps"]:
+            st["app"] = False
+        if d["start"] == "appdefault":
+            d["start"] = "default"
+
+    if any(st["app"] for st in c["steps"]):
+        variant(direct)
+    if c["prefix"]:
+        variant(lambda d: d.__setitem__("prefix", ""))
+    if c["osargs"]:
+        variant(lambda d: d.__setitem__("osargs", []))
+    if c["start"] == "default" and not c["osargs"]:
+        variant(lambda d: d.__setitem__("start", "new"))
+    for i, st in enumerate(c["steps"]):
+        variant(lambda d, i=i: d["steps"].pop(i))
+        for j, L in enumerate(st["loaders"]):
+            if len(st["loaders"]) > 1:
+                variant(lambda d, i=i, j=j: d["steps"][i]["loaders"].pop(j))
+            if L["doc"]:
+                for p in all_paths(L["doc"]):
+                    variant(lambda d, i=i, j=j, p=p: d["steps"][i]["loaders"][j].__setitem__(
+                        "doc", drop_key(d["steps"][i]["loaders"][j]["doc"], p)))
+            for a in range(len(L["args"])):
+                variant(lambda d, i=i, j=j, a=a: d["steps"][i]["loaders"][j]["args"].pop(a))
+    return out
+
+
 def shrink_candidates(c):
+    if is_hist(c):
+        return hist_shrink_candidates(c)
     out = []
 
     def variant(f):
@@ -685,7 +1001,7 @@ def load_known_merged(pid):
 def vanished(entry):
     """the paths of the configured sources that the implementation no longer shows (for the replay file)"""
     c, o = entry["case"], entry["observed"]
-    if o["out"] != "ok":
+    if is_hist(c) or o["out"] != "ok":
         return []
     gone = []
     docs = [loader_doc(L) for L in final_loaders(c)]
@@ -721,7 +1037,7 @@ def overrides(B, A):
 
 def repeat_stats(case):
     fin = final_loaders(case)
-    seq = [L for L in fin if L["kind"] == "file"] + [L for L in fin if L["kind"] != "file"]
+    seq = py_sequence(fin)
     pay = [payload(L) for L in seq]
     docs = [loader_doc(L) for L in seq]
     st = {"same": False, "aba": False, "samefile": False, "rawfile": False, "args": False, "osargs": False}
@@ -744,11 +1060,66 @@ def repeat_stats(case):
     return st
 
 
+def tie_stats(loaders):
+    """groups of loaders the sorter cannot separate (same ordered class, same Order) in which two members give one
+    leaf path different values -> the forms present: files | userP | userO | file+userP0"""
+    groups = {}
+    for L in loaders:
+        k = lclass_of(L)
+        if k[0] < 2 and not L.get("missing") and loader_doc(L):
+            groups.setdefault(k, []).append(L)
+    forms = set()
+    for k, g in groups.items():
+        hit = False
+        for i in range(len(g)):
+            for j in range(i + 1, len(g)):
+                if overrides(loader_doc(g[j]), loader_doc(g[i])):
+                    hit = True
+        if hit:
+            kinds = {L["kind"] for L in g}
+            forms.add("file+userP0" if kinds == {"file", "user"} else "files" if kinds == {"file"}
+                      else "userP" if k[0] == 0 else "userO")
+    return forms
+
+
+def hist_stats(case):
+    """what a history contains: number of Initializes; loaders added between two Initializes by class; an ordered
+    loader added after an Initialize that already consulted an unordered one (the stored list is then NOT sorted)"""
+    st = {"inits": 0, "added_after_init": {"P": 0, "O": 0, "U": 0}, "ordered_after_unordered_init": False,
+          "tie_across_inits": False, "set_after_init": False}
+    cur = [] if case["start"] == "new" else [{"kind": "args", "lid": 0, "args": case["osargs"], "doc": None}]
+    consulted_unordered = False
+    seen_init = False
+    before = []
+    for o in case["steps"]:
+        if o["op"] == "init":
+            st["inits"] += 1
+            seen_init = True
+            consulted_unordered = consulted_unordered or any(lclass_of(L)[0] == 2 for L in cur)
+            before = list(cur)
+        elif o["op"] == "set":
+            cur = list(o["loaders"])
+            st["set_after_init"] = st["set_after_init"] or seen_init
+            consulted_unordered = False if seen_init else consulted_unordered
+        elif o["op"] in ("add", "setconfig"):
+            for L in o["loaders"]:
+                if seen_init:
+                    r = lclass_of(L)[0]
+                    st["added_after_init"]["POU"[r]] += 1
+                    if r < 2 and consulted_unordered:
+                        st["ordered_after_unordered_init"] = True
+                    if r < 2 and any(lclass_of(E) == lclass_of(L) and loader_doc(E) and loader_doc(L) and
+                                     overrides(loader_doc(L), loader_doc(E)) for E in before):
+                        st["tie_across_inits"] = True
+            cur = cur + list(o["loaders"])
+    return st
+
+
 def run(ctx):
     vlib.load_known = load_known_merged
     static_ok = vlib.static_obligations(ctx)
     binp = vlib.go_build(ctx, "./cmd/c15")
-    n = 2500 if ctx.quick() else 20000
+    n, nh = (2500, 700) if ctx.quick() else (20000, 6000)
     corpus = load_corpus()
     cases = [dict(c, id=i) for i, c in enumerate(corpus)]
     if ctx.replay:
@@ -758,15 +1129,22 @@ def run(ctx):
             cases = [dict(rc, id=0)]
     else:
         cases += gen_cases(ctx, n, start_id=len(cases))
+        cases += gen_hists(ctx, nh, start_id=len(cases))
+    for c in cases:
+        everyone = hist_loaders(c) if is_hist(c) else [L for o in c["ops"] for L in o["loaders"]]
+        for rank in (0, 1):
+            assert sum(1 for L in everyone if lclass_of(L)[0] == rank) <= 12, "more than 12 loaders of one ordered class"
     by_id, res = evaluate(ctx, binp, cases, "main")
     M, V, KB, KC, nt = res["M"], res["V"], set(res["KB"]), set(res["KC"]), res["NT"]
-    want = {"file": "priority:0", "file2": "priority:0", "raw": "unordered", "args": "unordered"}
+    want = {"file": "priority:0", "file2": "priority:0", "raw": "unordered", "args": "unordered",
+            "userP": "priority:5", "userO": "ordered:-3", "userU": "unordered"}
     facts_ok = ctx.loader_facts == want
     ctx.oblige("facts: ordering class of the loader kinds read back from the real types = the model's lclass "
-               "(FileLoader priority/Order 0, Raw/Args unordered)", facts_ok, json.dumps(ctx.loader_facts))
+               "(FileLoader priority/Order 0, Raw/Args unordered; the driver's user loaders as declared)", facts_ok, json.dumps(ctx.loader_facts))
     static_ok = static_ok and facts_ok
-    ctx.log("cases=%d nontrivial=%d mismatches=%d violations=%d (KF-C15b class %d, KF-C15c class %d)" % (
-        len(cases), nt, len(M), len(V), len(KB), len(KC)))
+    nhist = sum(1 for c in cases if is_hist(c))
+    ctx.log("cases=%d (histories %d) nontrivial=%d (histories %d) mismatches=%d violations=%d (KF-C15b class %d, "
+            "KF-C15c class %d)" % (len(cases), nhist, nt, res.get("NTH", 0), len(M), len(V), len(KB), len(KC)))
     for i in V:
         by_id[i]["vanished_paths"] = vanished(by_id[i])
 
@@ -796,12 +1174,21 @@ def run(ctx):
         cur["vanished_paths"] = vanished(cur)
         cur["how_to_read"] = ("ops are applied in order to an App whose configure starts with ArgsLoader(osargs); "
                               "'observed.gets' lists App.Get(path) for case.paths in order; vanished_paths are supplied by a "
-                              "configured source yet App.Get returns nil")
+                              "configured source yet App.Get returns nil; 'observed.log' lists the lids of the user-written "
+                              "loaders in the order LoadConfig was called. A case with 'steps' is a history on ONE Configure "
+                              "(start new = configure.NewConfigure()+viper binder, default = configure.Default() under osargs, "
+                              "appdefault = the Configure of app.NewApp()): set/add/setconfig = SetLoaders/AddLoaders/"
+                              "AddLoaders(FileLoader), init = Initialize, get = Get of every path; steps with app=true are "
+                              "performed by ONE App.Run (options after app.SetConfigure(cfg)); observed.steps[i] belongs to "
+                              "steps[i]. Expected: every init consults the loaders configured so far as priority-ordered by "
+                              "Order, then ordered by Order, then the others, equal class and Order in the order they were "
+                              "added, and merges on top of what earlier inits left")
         return cur
 
     def widen():
         ctx.rng.seed(ctx.seed + 4242)
         more = gen_cases(ctx, 3000, 0)
+        more += gen_hists(ctx, 1500, len(more))
         b2, r2 = evaluate(ctx, binp, more, "widen")
         return [b2[i] for i in r2["V"] if i not in r2["KB"] and i not in r2["KC"]][:3]
 
@@ -810,14 +1197,58 @@ def run(ctx):
     nload = {}
     opkinds = {}
     profiles = {}
+    kinds.update({"user(priority)": 0, "user(ordered)": 0, "user(unordered)": 0})
+    ties = {"files": 0, "userP": 0, "userO": 0, "file+userP0": 0, "any": 0}
+    hties = dict(ties)
+    hs = {"histories": 0, "via_App.Run(SetConfigure)": 0, "via_App.Run(own Configure)": 0, "start": {},
+          "initializes_per_history": {}, "with_two_or_more_Initializes": 0,
+          "loaders_added_after_an_Initialize": {"P": 0, "O": 0, "U": 0},
+          "ordered_loader_added_after_an_Initialize_that_consulted_an_unordered_one": 0,
+          "equal_class_and_Order_overlap_across_two_Initializes": 0, "SetLoaders_after_an_Initialize": 0,
+          "profiles": {}}
     for c in cases:
+        if not is_hist(c):
+            continue
+        h = vlib.stable_hash([c["start"], c["osargs"], c["steps"], c["prefix"]])
+        distinct[h] = c["id"]
+        st = hist_stats(c)
+        hs["histories"] += 1
+        hs["start"][c["start"]] = hs["start"].get(c["start"], 0) + 1
+        if any(o["app"] for o in c["steps"]):
+            hs["via_App.Run(own Configure)" if c["start"] == "appdefault" else "via_App.Run(SetConfigure)"] += 1
+        hs["initializes_per_history"][st["inits"]] = hs["initializes_per_history"].get(st["inits"], 0) + 1
+        hs["with_two_or_more_Initializes"] += 1 if st["inits"] >= 2 else 0
+        for k in "POU":
+            hs["loaders_added_after_an_Initialize"][k] += st["added_after_init"][k]
+        hs["ordered_loader_added_after_an_Initialize_that_consulted_an_unordered_one"] += \
+            1 if st["ordered_after_unordered_init"] else 0
+        hs["equal_class_and_Order_overlap_across_two_Initializes"] += 1 if st["tie_across_inits"] else 0
+        hs["SetLoaders_after_an_Initialize"] += 1 if st["set_after_init"] else 0
+        hs["profiles"][c.get("profile", "corpus")] = hs["profiles"].get(c.get("profile", "corpus"), 0) + 1
+        forms = tie_stats([L for o in c["steps"] for L in o["loaders"]])
+        for f in forms:
+            hties[f] += 1
+        hties["any"] += 1 if forms else 0
+        for o in c["steps"]:
+            for L in o["loaders"]:
+                kk = L["kind"] if L["kind"] != "user" else \
+                    {"P": "user(priority)", "O": "user(ordered)", "U": "user(unordered)"}[L["cls"]]
+                kinds[kk] += 1
+    for c in cases:
+        if is_hist(c):
+            continue
+        forms = tie_stats(final_loaders(c))
+        for f in forms:
+            ties[f] += 1
+        ties["any"] += 1 if forms else 0
         h = vlib.stable_hash([c["osargs"], c["ops"], c["prefix"]])
         distinct[h] = c["id"]
         k = 0
         for o in c["ops"]:
             opkinds[o["op"]] = opkinds.get(o["op"], 0) + 1
             for L in o["loaders"]:
-                kinds[L["kind"]] += 1
+                kinds[L["kind"] if L["kind"] != "user" else
+                      {"P": "user(priority)", "O": "user(ordered)", "U": "user(unordered)"}[L["cls"]]] += 1
                 k += 1
         nload[k] = nload.get(k, 0) + 1
         profiles[c.get("profile", "corpus")] = profiles.get(c.get("profile", "corpus"), 0) + 1
@@ -826,31 +1257,44 @@ def run(ctx):
            "same_file_loaded_twice": 0, "raw_bytes_equal_to_a_file's_content": 0,
            "same_arguments_in_two_ArgsLoaders": 0, "os.Args_repeated_in_an_explicit_ArgsLoader": 0}
     for c in cases:
+        if is_hist(c):
+            continue
         st = repeat_stats(c)
         for k, f in zip(rep, ("same", "aba", "samefile", "rawfile", "args", "osargs")):
             rep[k] += 1 if st[f] else 0
     ids = sorted(by_id)
-    samples = [by_id[i] for i in ids[:1] + ids[-2:]]
+    plain_ids = [i for i in ids if not is_hist(by_id[i]["case"])]
+    samples = [by_id[i] for i in plain_ids[:1] + plain_ids[-1:] + [i for i in ids if is_hist(by_id[i]["case"])][-1:]]
     cov = {
         "evaluations": len(cases),
         "distinct_nontrivial": min(nt, len(distinct)),
-        "rule": "real App.Run starts over generated option sequences (SetConfig / AddConfigLoader / SetConfigLoader) with 1-5 "
-                "loaders (raw, temp files, args; plus ArgsLoader(os.Args)); observed: outcome class, App.Get(p) for every path "
-                "of every document, a prefix-bound map field; non-trivial = at least two loaded documents, some leaf path "
-                "supplied by two or more of them and some leaf path supplied by exactly one; distinct = distinct "
-                "(osargs, ops with documents, prefix)",
+        "rule": "real App.Run starts over generated option sequences (SetConfig / AddConfigLoader / SetConfigLoader) with 1-8 "
+                "loaders (raw, temp files, args, user-written loaders of the three ordering classes; plus ArgsLoader(os.Args)); "
+                "observed: outcome class, App.Get(p) for every path of every document, the read order of the user-written "
+                "loaders, a prefix-bound map field; non-trivial = at least two loaded documents, some leaf path supplied by "
+                "two or more of them and some leaf path supplied by exactly one. Histories on one Configure (SetLoaders / "
+                "AddLoaders / Initialize / Get steps, last Initialize optionally inside App.Run): observed per Initialize the "
+                "outcome and the read order, per read Get(p) for every path; non-trivial = an Initialize, then a change of "
+                "the loader list, then another Initialize. distinct = distinct (start, osargs, ops/steps with documents, prefix)",
         "samples": samples,
         "traces_validated_against_impl": len(cases),
         "input_distribution": {"loader_kinds": kinds, "loaders_per_case": nload, "options": opkinds, "profiles": profiles,
-                               "child_process_cases(real os.Args)": sum(1 for c in cases if c["child"]),
-                               "prefix_bound_cases": sum(1 for c in cases if c["prefix"]),
-                               "repeated_payloads": rep},
+                               "child_process_cases(real os.Args)": sum(1 for c in cases if c.get("child")),
+                               "prefix_bound_cases": sum(1 for c in cases if c.get("prefix")),
+                               "repeated_payloads": rep,
+                               "cases_with_loaders_of_equal_class_and_Order_giving_one_leaf_different_values": ties,
+                               "histories_on_one_Configure": hs,
+                               "histories_with_loaders_of_equal_class_and_Order_giving_one_leaf_different_values": hties},
         "nontrivial_cases": nt,
+        "nontrivial_histories": res.get("NTH", 0),
         "distinct_cases": len(distinct),
         "known_finding_class_sizes": {"KF-C15b": len(KB), "KF-C15c": len(KC)},
     }
     return vlib.decide(ctx, static_ok, by_id, M, V, cov, classify_known=classify, widen=widen, shrink=shrink,
                        assumptions=["documents have unique keys per map (wf_doc, re-checked on every generated case)",
                                     "keys are lower-case identifiers without dots (viper folds case and splits on '.')",
-                                    "order among file loaders of equal Order is not fixed by the contract; any order is accepted",
+                                    "loaders of equal class and Order are consulted in the order they were added (sort.Slice on at most 12 "
+                                    "elements is a stable insertion sort; no case has more than 12 loaders of one ordered class)",
+                                    "a later Initialize of the same Configure merges on top of what earlier ones left (nothing "
+                                    "resets the binder); user-written loaders deliver fixed bytes and never fail",
                                     "viper.Get cannot distinguish a null value from an absent key; both are compared as absent"])
